@@ -120,6 +120,8 @@ structure Conn where
   id : Nat
   ip : Nat
   sess : Option Nat := none
+  /-- the reader runs `readFuncTCP` (interleaved frames are accepted) rather than `readFuncStandard` -/
+  tcpMode : Bool := false
   deriving Repr, Inhabited
 
 inductive Ev
@@ -430,12 +432,26 @@ def connInner (cfg : Config) (srv : Server) (cn : Conn) (r : Request) : Server Ã
       else if cfg.h.setParameter then (srv, { status := r.hStatus, err := hErrOf r })
       else notImplemented srv
 
+/-- `serverConnReader.runInner`: a `switchReadFuncError` selects the read function -/
+def setMode (srv : Server) (c : Nat) : Err â†’ Server
+  | .sw b => { srv with conns := srv.conns.map fun x => if x.id == c then { x with tcpMode := b } else x }
+  | _ => srv
+
 /-- `handleRequestOuter` + the reader's reaction to its result: the response carries the request's
-CSeq (unless it was missing), and a real error closes the connection after the response. -/
+CSeq (unless it was missing); a real error closes the connection after the response; a
+`switchReadFuncError` switches between the standard and the interleaved read loop. -/
 def handleRequest (cfg : Config) (srv : Server) (cn : Conn) (r : Request) : Server Ã— Resp :=
   let (srv1, res) := connInner cfg srv cn r
   let res' := { res with cseq := r.cseq }
-  if res.err == .fail then (closeConn srv1 cn.id, res') else (srv1, res')
+  if res.err == .fail then (closeConn srv1 cn.id, res') else (setMode srv1 cn.id res.err, res')
+
+/-- something that is not a request arrives on a connection: an RTSP response always ends the read
+loop (`ErrServerUnexpectedResponse`), an interleaved frame does so in the standard read loop
+(`ErrServerUnexpectedFrame`) and is consumed in the interleaved one -/
+def nonRequest (srv : Server) (c : Nat) (isFrame : Bool) : Server :=
+  match findConn srv c with
+  | none => srv
+  | some cn => if isFrame && cn.tcpMode then srv else closeConn srv c
 
 /-! ## events -/
 
@@ -447,6 +463,10 @@ inductive Event
   | req (c : Nat) (r : Request)
   /-- the session's stream check timer finds the peer silent -/
   | expire (sid : Nat)
+  /-- the client sends an interleaved frame -/
+  | frame (c : Nat)
+  /-- the client sends an RTSP response -/
+  | response (c : Nat)
   deriving Repr, Inhabited
 
 /-- One event; the response (if any) is returned.  A request on a connection that is not open
@@ -461,6 +481,8 @@ def stepEv (cfg : Config) (srv : Server) : Event â†’ Server Ã— Option Resp
     | none => (srv, none)
     | some cn => let (s, res) := handleRequest cfg srv cn r; (s, some res)
   | .expire sid => (endSession srv sid, none)
+  | .frame c => (nonRequest srv c true, none)
+  | .response c => (nonRequest srv c false, none)
 
 def run (cfg : Config) : Server â†’ List Event â†’ Server Ã— List (Option Resp)
   | srv, [] => (srv, [])
